@@ -33,6 +33,7 @@ TRUSTED_BASE = [
     "axioms allowed: propext, Classical.choice, Quot.sound (audited per theorem with #print axioms)",
     "hand-written Lean model, tied to /repo by differential execution on this run (sampled)",
     "Go harness, vsys syscall shim, AST call rerouter, verif-tagged hook files",
+    "tools/go2lean (Go -> Lean translator of the listed pure decision functions; subset and semantics in docs/go2lean.md)",
     "Lean driver parsing glue and this orchestrator's canonicalisation",
     "go1.23.5 runtime and Linux kernel semantics where modelled as inputs",
 ]
